@@ -260,6 +260,17 @@ func (r *Run) Fail(f Failure) {
 	}
 }
 
+// Attempt records, before a call that can take the whole process down (an allocation of
+// terabytes is a fatal runtime error, not a panic), the failure to report if it does; Survived
+// withdraws it. bin/check reads the file when hrun dies.
+func (r *Run) Attempt(f Failure) {
+	if data, err := json.Marshal(f); err == nil {
+		_ = os.WriteFile(filepath.Join(r.Out, "inflight.json"), data, 0o644)
+	}
+}
+
+func (r *Run) Survived() { _ = os.Remove(filepath.Join(r.Out, "inflight.json")) }
+
 // OracleFamily declares that a failing Coq case of this family is a violation
 // of the property itself; what says what it means.
 func (r *Run) OracleFamily(family, what string) {
